@@ -35,7 +35,8 @@ type Comp struct {
 	Kind, Name string
 	Conf       reflect.Type // nil: constructor takes no config
 	Default    func() any
-	Required   []string     // dotted keys that every generated config contains
+	Required   []string     // dotted keys that every generated config contains and whose absence must be rejected
+	Always     []string     // dotted keys that every generated config contains, but whose absence is legal
 	Skip       []string     // dotted keys that are never generated (mutually exclusive options)
 	Gen        map[string]G // dotted key -> valid value generator (overrides the class default)
 	Doc        map[string]any
@@ -203,7 +204,7 @@ func buildTable() []*Comp {
 		sched("unlimited", schedule.UnlimitedConfig{}, []string{"duration"}, nil),
 		sched("instance_step", schedule.InstanceStepConfig{}, []string{"stepduration", "step"},
 			map[string]G{"from": count, "to": count, "step": intRange(1, 20)}),
-		sched("composite", schedule.CompositeConf{}, []string{"nested"}, nil),
+		{Kind: KSched, Name: "composite", Conf: reflect.TypeOf(schedule.CompositeConf{}), Always: []string{"nested"}},
 
 		// aggregators
 		{Kind: KResult, Name: "phout", Conf: reflect.TypeOf(netsample.PhoutConfig{}), Default: func() any { return netsample.DefaultPhoutConfig() },
@@ -291,7 +292,7 @@ func Init() error {
 				}
 				c.fields = fs
 			}
-			for _, k := range append(append([]string{}, c.Required...), c.Skip...) {
+			for _, k := range append(append(append([]string{}, c.Required...), c.Skip...), c.Always...) {
 				if lookupKey(c.fields, k) == nil {
 					tableErr = fmt.Errorf("confgen table out of date: %s has no key %q", c.Label(), k)
 					return
